@@ -27,10 +27,28 @@ type tokOpts struct {
 	noNonce bool
 	nonce   string
 	extra   M
+	claimDev int // 0 none; otherwise a correctly signed token whose iss / aud deviates (invalid for this deployment)
 }
 
 func (w *world) mintWith(o tokOpts, rng *mrand.Rand) *hTok {
+	t := w.mintWith0(o, rng)
+	if o.claimDev != 0 && t.valid { // correctly signed, wrong issuer or audience: the model and the oracles are told it is invalid
+		t.valid = false
+		w.register(t)
+	}
+	return t
+}
+
+var issDevs = []string{strings.TrimPrefix(issuerURL, "https://"), "https://" + issuerURL, issuerURL + "/", "http://" + strings.TrimPrefix(issuerURL, "https://"), issuerURL + ".evil.test"}
+
+func (w *world) mintWith0(o tokOpts, rng *mrand.Rand) *hTok {
 	return w.mint(func(c M) {
+		switch {
+		case o.claimDev > 0 && o.claimDev <= len(issDevs):
+			c["iss"] = issDevs[o.claimDev-1]
+		case o.claimDev > len(issDevs):
+			c["aud"] = []interface{}{"someone-else", "cid2"}
+		}
 		if o.email != nil {
 			c["email"] = o.email
 		}
@@ -85,6 +103,9 @@ func (w *world) randomTokOpts(rng *mrand.Rand, good bool) tokOpts {
 		o.roles = groupPool[rng.Intn(len(groupPool))]
 		if rng.Intn(8) == 0 {
 			o.email = []interface{}{nil, 7, []string{"user@example.com"}, M{"a": 1}}[rng.Intn(4)]
+		}
+		if rng.Intn(5) == 0 { // an otherwise perfect token of another issuer / for another client
+			o.email, o.claimDev = "user@example.com", 1+rng.Intn(len(issDevs)+1)
 		}
 	}
 	return o
@@ -339,6 +360,17 @@ func (w *world) plain(rawURI string, rs reqSpec, rng *mrand.Rand) M {
 	}
 	if refreshDue {
 		w.judgeRefresh(rs, obs, calls, tok, rng)
+	}
+	// ---- C10: the token forwarded for an own, untampered session is the session's CURRENT ID token (after a refresh: the new one)
+	if obs["class"] == "forward" && w.loggedIn[b] && !w.tampered[b] && !special {
+		if cur := w.loginTok[b]; cur != nil {
+			hd, _ := obs["hdrs"].([]string)
+			if !inList(hd, "X-Auth-Request-Token="+cur.id) {
+				T.oracle("C10", "the forwarded X-Auth-Request-Token is not the ID token the session currently holds", M{"current": cur.id, "forwarded": hd, "note": rs.note}, w.replay())
+			}
+		}
+	}
+	if refreshDue {
 	} else if !special {
 		for _, c := range calls {
 			if strings.HasPrefix(c, "refresh(") && own && w.rtOf[b] == "" {
@@ -726,7 +758,8 @@ func (w *world) randomURI(rng *mrand.Rand, prop string) string {
 	case prop == "C16" && rng.Intn(2) == 0:
 		return "/p?x=" + url.QueryEscape(markerPool[rng.Intn(len(markerPool))])
 	}
-	return []string{"/x", "/a/b?c=d", "/", "/page", "/public/info", "/favicon.ico", "/deep/path?q=1"}[rng.Intn(7)]
+	// ordinary application paths, among them ones that merely begin like the callback or logout path
+	return []string{"/x", "/a/b?c=d", "/", "/page", "/public/info", "/favicon.ico", "/deep/path?q=1", "/cbx", "/cb.css", "/cb/", "/cb/status", "/cb/logout/x", "/cb/logout.html"}[rng.Intn(13)]
 }
 
 func sortStrings(s []string) {
@@ -930,6 +963,10 @@ func (w *world) scripted(prop string, sc int, rng *mrand.Rand) {
 			w.plain(w.randomURI(rng, "C04"), rs, rng)
 		}
 	case "C08":
+		if sc%7 == 5 {
+			w.refreshTransition(sc/7, rng)
+			return
+		}
 		if sc%3 == 1 {
 			w.refreshSweep(sc/3, rng, []string{"", "application/json"}[sc%2])
 			w.plain("/data3", reqSpec{accept: "application/json", note: "JSON client after the refresh attempt"}, rng)
@@ -990,6 +1027,16 @@ func (w *world) scripted(prop string, sc int, rng *mrand.Rand) {
 			}
 		}
 	case "C17":
+		if sc%5 == 4 && sc%10 != 9 { // own initiation, then the callback with the right state and a code the provider refuses (400, 401 or 403)
+			w.visit("/start", reqSpec{note: "initiate"})
+			if ir := w.lastInit[w.b]; ir != nil {
+				w.callback(ir.state, &issuedCode{code: fmt.Sprintf("stale-or-forged-%d", sc)}, w.randomTokOpts(rng, true), "", reqSpec{note: "own state, a code the provider refuses"}, rng)
+				c := w.authorize(ir)
+				c.used = true
+				w.callback(ir.state, c, w.randomTokOpts(rng, true), "", reqSpec{note: "own state, a code that has been used"}, rng)
+			}
+			return
+		}
 		if sc%10 == 9 { // K1: state of the second initiation with a code issued for the first (client-chosen input, healthy provider)
 			w.visit("/tab1", reqSpec{note: "tab 1 initiates"})
 			ir1 := w.lastInit[w.b]
@@ -1094,6 +1141,10 @@ func (w *world) scripted(prop string, sc int, rng *mrand.Rand) {
 			w.do(rs)
 		}
 	case "C06", "C10":
+		if sc%5 == 4 {
+			w.refreshTransition(sc/5, rng)
+			return
+		}
 		if prop == "C06" && sc%2 == 1 {
 			w.refreshSweep(sc/2, rng, []string{"", "application/json"}[sc%4/2])
 			return
@@ -1150,6 +1201,45 @@ func (w *world) scripted(prop string, sc int, rng *mrand.Rand) {
 		o.blob = []int{0, 1400, 1500, 2900, 3000, 4400, 9000, 30000}[sc%8]
 		rt := []string{"", "rt-1", textWithCompressedLen(rng, 2000+4*(sc%3-1), alnum), textWithCompressedLen(rng, 6000, alnum)}[sc%4]
 		res := w.fullLogin(uri, o, rt, rng)
+		if res.ok && prop == "C09" && sc%4 == 1 {
+			// key rotation by configuration reload: the same middleware (same name) is rebuilt in this process with another session
+			// key.  Cookies minted under the key that is no longer configured are not session content for it, and what it writes is
+			// written under the new key.
+			newKey := otherSessKeys[3]
+			d2 := &down{}
+			rot := newInstance(w.p, d2, func(c *oidc.Config) { w.cfgMod(c); c.SessionEncryptionKey = newKey })
+			req := httptest.NewRequest("GET", "http://app.test/after-key-rotation", nil)
+			w.jars[w.b].addTo(req)
+			rec := httptest.NewRecorder()
+			rot.ServeHTTP(rec, req)
+			T.stat("handler.key-rotation-reloads")
+			if d2.calls > 0 {
+				T.oracle("C09", "cookies minted under a session key that is no longer configured were accepted as session content by the rebuilt middleware", M{"status": rec.Code}, w.replay())
+			}
+			fj := jar{}
+			fj.apply(rec.Header())
+			if len(fj) > 0 {
+				read := func(key string) string {
+					sm, err := oidc.NewSessionManager(key, w.force, oidc.NewLogger("none"))
+					if err != nil {
+						return ""
+					}
+					back := httptest.NewRequest("GET", "http://app.test/", nil)
+					fj.addTo(back)
+					sd, err := sm.GetSession(back)
+					if err != nil {
+						return ""
+					}
+					return sd.GetCSRF() + sd.GetNonce()
+				}
+				if read(sessKey) != "" {
+					T.oracle("C09", "the middleware rebuilt with a new session key writes cookies that open under the old key", nil, w.replay())
+				}
+				if rec.Code == 302 && read(newKey) == "" {
+					T.oracle("C09", "the middleware rebuilt with a new session key writes cookies that do not open under its configured key", nil, w.replay())
+				}
+			}
+		}
 		if res.ok {
 			w.plain("/x", reqSpec{}, rng)
 			if tok := w.loginTok[w.b]; tok != nil && rt != "" { // refresh to a token of another size
@@ -1160,6 +1250,9 @@ func (w *world) scripted(prop string, sc int, rng *mrand.Rand) {
 		}
 	case "C15":
 		u := rawURIs[rng.Intn(len(rawURIs))]
+		if w.p.doc != nil && sc%2 == 1 { // relative authorization endpoint: request paths whose directory would make a bad base for it
+			u = []string{"/%5Cevil.test/x", "/%5cevil.test/x/y?z=1", "/%5Cevil.test/", "/%2Fevil.test/x/", "//evil.test/x/"}[sc/2%5]
+		}
 		if sc%3 == 0 { // over-long URI: only the query is long
 			u = []string{"/./%5Cevil.test/", "/a/../%5Cevil.test/", "/%09/evil.test/", "/./%2Fevil.test/", "/ok/path"}[sc/3%5] + "?pad=" + strings.Repeat("p", 1000+rng.Intn(300))
 		}
@@ -1177,6 +1270,28 @@ func (w *world) scripted(prop string, sc int, rng *mrand.Rand) {
 
 // refreshSweep: login with a refresh token, let the ID token expire (or come within the grace period), then a request whose refresh
 // grant is answered with answer kind number `kind` (all kinds are visited systematically over the scenarios)
+// refreshTransition: a session whose ID token occupies one cookie (or several chunks) is refreshed to one that occupies several
+// chunks (or one cookie), with different groups; the requests that follow carry the identity of the NEW token
+func (w *world) refreshTransition(kind int, rng *mrand.Rand) {
+	from := []int{0, 0, 9000, 9000, 0, 3000}[kind%6]
+	to := []int{0, 9000, 0, 9000, 30000, 0}[kind%6]
+	o := w.randomTokOpts(rng, true)
+	o.blob, o.expIn, o.groups = from, 10*time.Minute, []interface{}{"admin", "before-refresh"}
+	if !w.fullLogin("/start", o, "rt-transition", rng).ok {
+		return
+	}
+	tok := w.loginTok[w.b]
+	w.wait(time.Duration(tok.exp-time.Now().Unix()-10) * time.Second)
+	o2 := w.randomTokOpts(rng, true)
+	o2.blob, o2.expIn, o2.groups = to, time.Hour, []interface{}{"admin", "after-refresh"}
+	nt := w.mintWith(o2, rng)
+	a := &tokenAnswer{kind: "ok", idToken: nt.raw, refresh: []string{"", w.regOpaque("second-refresh-token")}[kind%2]}
+	w.plain("/transition", reqSpec{refresh: a, note: fmt.Sprintf("refresh from a %d-byte-blob token to a %d-byte-blob token", from, to)}, rng)
+	w.plain("/after-transition", reqSpec{}, rng)
+	w.plain("/after-transition-2", reqSpec{}, rng)
+	T.stat("handler.refresh-transitions")
+}
+
 func (w *world) refreshSweep(kind int, rng *mrand.Rand, accept string) {
 	o := w.randomTokOpts(rng, true)
 	o.expIn = 10 * time.Minute
